@@ -455,10 +455,13 @@ func (db *DB) doProcessIterations(iterations []*iteration) {
 		return false
 	}
 
+	allHaveDeadline := true
 	for _, it := range iterations {
 		includeMemStore = includeMemStore || it.includeMemStore
 		deadline, hasDeadline := it.ctx.Deadline()
-		if hasDeadline && deadline.After(maxDeadline) {
+		if !hasDeadline {
+			allHaveDeadline = false
+		} else if deadline.After(maxDeadline) {
 			maxDeadline = deadline
 		}
 		// default outFields to table fields
@@ -518,7 +521,10 @@ func (db *DB) doProcessIterations(iterations []*iteration) {
 	}
 
 	newCtx := context.Background()
-	if !maxDeadline.IsZero() {
+	if allHaveDeadline && !maxDeadline.IsZero() {
+		// The scan may stop once the last iteration's deadline has passed. If
+		// any iteration has no deadline, the scan has none either (each
+		// iteration still checks its own deadline).
 		var cancel context.CancelFunc
 		newCtx, cancel = context.WithDeadline(newCtx, maxDeadline)
 		defer cancel()
